@@ -952,6 +952,7 @@ Definition drain_f (n : nat) (sc : frames) :=
 Definition key1 (n : nat) (e : expr) (s : frames) (first : bool) : M value :=
   fun w => match eval n e s w with
            | (Ok v, w') => (Ok v, w')
+           | (OutOfFuel, w') => (OutOfFuel, w')
            | (o, w') => if first then (o, w') else (OutOfDomain, w')
            end.
 Definition gk_f (n : nat) (s : frames) :=
